@@ -2020,3 +2020,79 @@ def probe_interference(ctx, rng, stats, tier="quick"):
                 _viol(ctx, "interference", "a new object built after the other objects does not solve the kriging system of its own parameters "
                       "(target %d: dev %.3g, tol %.3g)" % _worst(np.abs(fr - tb["raw"]), tb["tf"]), dict(sp, others=log), "interference:textbook",
                       impl=fr, expected=tb["raw"])
+
+
+# --------------------------------------------------------------------------- the estimated mean (kriging the mean)
+
+def probe_mean(ctx, spec, stats):
+    """"mean estimation" clause: Krige.get_mean(post_process False / True) and krige(pos, only_mean=True) against the
+    directly computed values.  Without drift terms the estimated mean of an unbiased variant is the generalised-least-squares
+    mean of the prepared data, mu = (1^T A^-1 d) / (1^T A^-1 1) with A = C + diag(err) (0 for the simple variants);
+    get_mean() = denormalize(mu + mean) for a constant mean (None for a callable mean or with drift terms), the mean field
+    = denormalize(mu + mean(x)) + trend(x).  With drift terms the mean field is d^T lambda for the system with the
+    covariance part of the right-hand side set to zero."""
+    tb = textbook(spec)
+    if tb.get("singular") or tb["cond"] > COND_MAX:
+        return
+    n, N, nz, d, K = tb["n"], tb["N"], tb["nz"], tb["d"], tb["K"]
+    Y = tb["Y"]
+    m = Y.shape[1]
+    kr = build_krige(spec, Capture("pinv"))
+    unb = s_unb(spec)
+    has_drift = N - n - (1 if unb else 0) > 0
+    mean = tb["mean"]
+    mean_callable = isinstance(mean, str)
+    mval = 0.0 if (mean is None or mean_callable) else float(mean)
+    A = K[:n, :n]
+    ctx.count(None, hist=dict(probe="mean"))
+    if not has_drift:
+        if unb:
+            w = np.linalg.solve(A, np.ones(n))
+            mu = float(w @ d[:n]) / float(w.sum())
+            sc = (np.abs(w) @ np.abs(d[:n])) / abs(float(w.sum())) + abs(mu)
+        else:
+            mu, sc = 0.0, 0.0
+        # the implementation obtains mu from the FULL kriging system [[A, 1], [1^T, 0]] (entries of size var next to ones):
+        # its solver error is governed by cond(K), not by cond(A) of the scale-invariant GLS formula used here
+        t_raw = (1e3 * max(tb["cond"], np.linalg.cond(A)) * EPS + 1e-9) * sc + 1e-300
+        case = dict(spec)
+        g0 = kr.get_mean(post_process=False)
+        if g0 is None or not abs(float(g0) - mu) <= t_raw:
+            _viol(ctx, "mean", "get_mean(post_process=False) = %r, the generalised-least-squares mean of the prepared data is %.12g (tol %.3g)" % (
+                g0, mu, t_raw), case, "mean:raw", impl=g0, expected=mu)
+        g1 = kr.get_mean(post_process=True)
+        if mean_callable:
+            if g1 is not None:
+                _viol(ctx, "mean", "get_mean() = %r for a callable mean (documented: None)" % (g1,), case, "mean:none", impl=g1)
+        elif bool(in_range(nz, mu + mval)):
+            exp = float(norm_bwd(nz, np.array([mu + mval]))[0])
+            t1 = float(np.max(post_tol(nz, np.array([mu + mval]), t_raw))) + 1e-9 * abs(exp)
+            if g1 is None or not _within(float(g1), exp, t1):
+                _viol(ctx, "mean", "get_mean() = %r but denormalize(estimated mean %.6g + given mean %.6g) = %.12g (tol %.3g)" % (
+                    g1, mu, mval, exp, t1), case, "mean:get_mean", impl=g1, expected=exp)
+        raw_field = np.full(m, mu)
+        t_field = np.full(m, t_raw)
+    else:
+        k0 = np.array(tb["k"])
+        k0[:n] = 0.0
+        lam0 = np.linalg.solve(K, k0)
+        raw_field = d @ lam0
+        t_field = tol_field(tb["cond"], d, lam0, raw_field)
+        for post in (True, False):
+            g = kr.get_mean(post_process=post)
+            if g is not None:
+                _viol(ctx, "mean", "get_mean(post_process=%s) = %r with drift terms (documented: None)" % (post, g), dict(spec), "mean:none", impl=g)
+    # the mean field
+    mY = fval(mean, Y, m)
+    exp_f = norm_bwd(nz, raw_field + mY) + fval(tb["trend"], Y, m)
+    f = np.asarray(call_krige(kr, spec, only_mean=True), dtype=float).reshape(-1)
+    inr = in_range(nz, raw_field + mY)
+    tp = post_tol(nz, raw_field + mY, t_field) + 1e-9 * np.abs(exp_f)
+    tp = np.where(inr & np.isfinite(tp), tp, np.inf)
+    with np.errstate(all="ignore"):
+        dev = np.where(inr, np.abs(f - exp_f), 0.0)
+        dev = np.where((f == exp_f) | ~inr, 0.0, dev)
+    if f.shape != exp_f.shape or not np.all(dev <= tp):
+        i_, d_, t_ = _worst(dev, tp)
+        _viol(ctx, "mean", "krige(pos, only_mean=True) differs from denormalize(estimated mean + mean) + trend (target %d: dev %.3g, tol %.3g)" % (
+            i_, d_, t_), dict(spec), "mean:only_mean", impl=f, expected=exp_f)
